@@ -412,6 +412,12 @@ outer:
 				if transport == nil {
 					return
 				}
+				if len(transport.TransportFlow().Src().Raw()) == 0 {
+					// the transport header is incomplete, gopacket adds the layer nevertheless
+					pmd := pcapmetadata.FromPacketMetadata(packet.CaptureInfo())
+					log.Printf("Bad packet %s:%d: truncated transport header", pmd.PcapInfo.Filename, pmd.Index)
+					return
+				}
 				switch transport.LayerType() {
 				case layers.LayerTypeTCP:
 					tcp := transport.(*layers.TCP)
